@@ -11,9 +11,9 @@ META = {
              'dump(ast.parse(result.src)) == dump(reference) (when the reference round-trips through unparse), C01 oracle on the result, subn counts == number of reference '
              'replacements, identity template leaves the structure unchanged, every line lying wholly outside all matched nodes\' line ranges is preserved in order. Recipes: '
              'whole-match wrap, MOR wrap (nested on/off), operand swap, If inversion with body/orelse captures, With body/items capture, Dict item capture, identity, count, '
-             'on=leave, the repository golden sub inputs. A cell is (recipe, settings, number of matches class). Recipes also include a list fold with loop in {False,1,2,3,True} (reference counts substitutions per location: subn total) and an Assign -> \'with __FST_v as __FST_n\' rewrite; a reference that does not read back as itself is out of scope.'),
+             'on=leave, the repository golden sub inputs. A cell is (recipe, settings, number of matches class). Recipes also include a list fold with loop in {False,1,2,3,True} (reference counts substitutions per location: subn total) and an Assign -> \'with __FST_v as __FST_n\' rewrite; a reference that does not read back as itself is out of scope. Every window also runs one GENERATED recipe: an int-constant wrap selected through MAND(.., MNOT(MOR(type, constrained atom))), a Name wrap selected through a random MNOT/MOR/MAND/MTYPES combinator (C17 spec generator), or a rename of one stored name with ctx=True and a pure-AST pattern carrying Store() (matches located with match(ctx=True)).'),
     'budget': {'quick': 45, 'thorough': 900},
-    'floors': {'quick': {'loop_substitutions_judged': 800, 'substitutions_judged': 2500, 'matches_replaced': 8000}, 'thorough': {'loop_substitutions_judged': 5000, 'substitutions_judged': 80000, 'matches_replaced': 250000}},
+    'floors': {'quick': {'loop_substitutions_judged': 800, 'generated_prefilter_or_ctx_recipes': 2000, 'substitutions_judged': 2500, 'matches_replaced': 8000}, 'thorough': {'loop_substitutions_judged': 5000, 'substitutions_judged': 80000, 'matches_replaced': 250000}},
     'shares_c01_oracle': True,
     'assumptions': ['match() itself is established by C17; the reference uses it only to locate matches', 'loop is checked only through termination/identity (its fixed point is defined by pfst\'s own re-matching)'],
     'technique': 'runtime monitoring: reference-model comparison (ast.NodeTransformer-style pure AST rewrite) at the sub()/subn() boundary',
@@ -25,6 +25,7 @@ def L(name):
 
 
 TOTALS = []   # substitutions per location reported by loop-aware reference builders
+CUR = {'spec': ['MNOT', 'Attribute'], 'ctxname': 'self'}   # per-window parameters of the generated recipes (stored in the case for replay)
 
 
 def recipes(M):
@@ -53,6 +54,16 @@ def recipes(M):
     def assign_to_with(n, tags, R):
         return ast.With(items=[ast.withitem(context_expr=R(n.value), optional_vars=R(n.targets[0]))], body=[ast.Pass()])
 
+    def wrapk(n, tags, R):
+        return ast.Call(func=L('K'), args=[R(n, top=False)], keywords=[])
+
+    def rename(n, tags, R):
+        return ast.Name(id='z9', ctx=n.ctx)
+
+    def spec_pat():
+        from .c17 import build_spec
+        return M.MAND(M.MName(ctx=ast.Load), build_spec(M, CUR['spec']))
+
     def mk_fold(N):
         def fold(n, tags, R):
             elts = [R(e) for e in n.elts]
@@ -74,11 +85,16 @@ def recipes(M):
         ('identity-expr', lambda: M.MCall, '__FST_', ident, None),
         ('identity-stmt', lambda: M.MAssign, '__FST_', ident, None),
         ('return-check', lambda: M.MReturn(value=M.M(v=ast.expr)), 'return check(__FST_v)', ret, None),
+        # patterns whose search() pre-filter (node types to visit) is derived through MNOT/MOR/MAND/MTYPES: sub() must replace what match() accepts
+        ('wrap-int-not-name-or-1', lambda: M.MAND(M.MConstant(value=int), M.MNOT(M.MOR(ast.Name, M.MConstant(1)))), 'K(__FST_)', wrapk, None),
+        ('wrap-name-random-combinator', spec_pat, 'log(__FST_)', wrap, None),
+        # ctx=True with a pure-AST pattern carrying an expr_context instance: only that context is substituted
+        ('rename-stored-name-ctx', lambda: ast.Name(id=CUR['ctxname'], ctx=ast.Store()), 'z9', rename, {'ctx': True}),
         ('attr-to-subscript', lambda: M.MAttribute(value=M.M(v=...), ctx=ast.Load), '__FST_v[key]', attr, None),
     ]
 
 
-def build_reference(tree, root2, pat, builder, nested, count, on):
+def build_reference(tree, root2, pat, builder, nested, count, on, match_kw=None):
     """Pure-AST rewrite. Returns (new tree, number of replacements, list of matched top-level (lineno, end_lineno)) or None
     when a selected match sits inside a match pattern (documented: hardly any expression is valid there)."""
     # correspondence tree <-> root2.a by parallel walk (same structure)
@@ -94,7 +110,7 @@ def build_reference(tree, root2, pat, builder, nested, count, on):
     for f in root2.walk(True):
         b = f.a
         try:
-            m = f.match(pat)
+            m = f.match(pat, **(match_kw or {}))
         except Exception:
             m = None
         if m is None:
@@ -161,14 +177,22 @@ def run_window(ctx, FST, M, src, label, rnd, only=None):
         return
     RCP = recipes(M)
     rnd.shuffle(RCP)
+    from .c17 import gen_spec
+    stored = sorted({n.id for n in ast.walk(base) if isinstance(n, ast.Name) and isinstance(n.ctx, ast.Store)} & {n.id for n in ast.walk(base) if isinstance(n, ast.Name) and not isinstance(n.ctx, ast.Store)})
+    CUR['ctxname'] = rnd.choice(stored) if stored else 'self'
+    CUR['spec'] = gen_spec(rnd)
     if only:
         RCP = [r for r in RCP if r[0] == only['recipe']]
+        CUR['ctxname'], CUR['spec'] = only.get('ctxname', CUR['ctxname']), only.get('spec', CUR['spec'])
+    else:
+        gen = [r for r in RCP if r[0] in ('wrap-int-not-name-or-1', 'wrap-name-random-combinator', 'rename-stored-name-ctx')]
+        RCP = [r for r in RCP if r not in gen][:4] + [rnd.choice(gen)] + RCP   # one generated recipe in every window
     for name, mkpat, tmpl, builder, extra in RCP[:5]:
         if ctx.out_of_time():
             return
         extra = extra or {}
         del TOTALS[:]
-        nested = rnd.random() < 0.4 and name.startswith('wrap')
+        nested = rnd.random() < 0.4 and name.startswith('wrap-name')
         count = rnd.choice([0, 0, 0, 1, 2])
         if only:
             nested, count = only['nested'], only['count']
@@ -183,9 +207,11 @@ def run_window(ctx, FST, M, src, label, rnd, only=None):
         except Exception:
             return
         settings = f'nested={nested},count={count},on={on}'
-        case = {'src': src, 'recipe': name, 'nested': nested, 'count': count, 'on': on, 'label': label}
+        case = {'src': src, 'recipe': name, 'nested': nested, 'count': count, 'on': on, 'label': label, 'ctxname': CUR['ctxname'], 'spec': CUR['spec']}
+        if name in ('wrap-int-not-name-or-1', 'wrap-name-random-combinator', 'rename-stored-name-ctx'):
+            ctx.count('generated_prefilter_or_ctx_recipes')
         try:
-            br = build_reference(copy.deepcopy(base), root2, mkpat(), builder, nested, count, on)
+            br = build_reference(copy.deepcopy(base), root2, mkpat(), builder, nested, count, on, {'ctx': True} if extra.get('ctx') else None)
             if br is None:
                 ctx.count('match_inside_pattern(skipped)')
                 continue
